@@ -46,11 +46,16 @@ TRUSTED = [
 RULE = (
     "request classes = route x method kind x body (valid | parseFail(10 exception classes) | badMeta(6) | badParams(2) | "
     "cancel | badValue(9 conversion-failure classes: unknown Enum member, undecodable nested-dataclass blob, ...)) x content "
-    "type (correct | wrong | missing | wrong-but-extending-the-right-one) x content encoding x wire size x auth x token x "
-    "behaviour.  quick: the product of the six dimensions the property's quantifier names (20 880 classes, exhaustive) with "
-    "size/auth/behaviour drawn per class, plus size x auth x behaviour x route x kind on otherwise good requests, plus route "
-    "x kind x body x token x behaviour (4 176 classes, exhaustive) behind good headers; thorough: the full product (334 080 "
-    "classes, exhaustive).  Every class is instantiated with a freshly generated concrete request (method name, parameters, "
+    "type (correct | wrong | missing | wrong-but-extending-the-right-one) x content encoding (none | supported | "
+    "unsupported | corrupt | bomb | decoded length exactly the cap, per coding: gzip, zstd with / without a declared size) "
+    "x wire size (within | oversize | exactly the cap) x auth x token x "
+    "behaviour; instances sit at cap-2 / cap-1 / cap / cap+1 / cap+2 on the wire and after decoding.  quick: the product of "
+    "the six dimensions the property's quantifier names (25 056 classes, exhaustive; one at-the-cap coding drawn per class) with "
+    "size/auth/behaviour drawn per class, plus size x auth x behaviour x route x kind x all 8 encodings on otherwise good requests, plus route "
+    "x kind x body x token x behaviour (4 176 classes, exhaustive) behind good headers; thorough: the full product (634 752 realisable "
+    "classes) factored as the server and the model read a request — every resource-level class (16 704) behind each of "
+    "the 6 (size, encoding) pairs the middleware chain lets through, and each of the 38 (size, encoding, auth) classes in "
+    "front of 1 500 drawn resource-level classes.  Every class is instantiated with a freshly generated concrete request (method name, parameters, "
     "malformed bytes found by seeded mutation + pyarrow classification, codec, junk headers, tampering variant).  A case "
     "is distinct by (class, concrete request bytes, headers); all cases are non-trivial."
 )
@@ -86,8 +91,8 @@ DESER_EXC = ["keyError", "valueError", "overflowError", "typeError", "arrowInval
 BODIES = (["valid"] + [f"parseFail:{e}" for e in PARSE_EXC] + [f"badMeta:{m}" for m in META]
           + ["badParams:mismatch", "badParams:badNames", "cancel"] + [f"badValue:{e}" for e in DESER_EXC])
 CTYPES = ["correct", "wrong", "missing", "wrongExtends"]
-CENCS = ["none", "supported", "unsupported", "corrupt", "bomb"]
-SIZES = ["within", "oversize"]
+CENCS = ["none", "supported", "unsupported", "corrupt", "bomb", "atCap:gzip", "atCap:zstdSized", "atCap:zstdStream"]
+SIZES = ["within", "oversize", "atCap"]
 AUTHS = ["ok", "rejected"]
 TOKENS = ["valid", "tampered", "missing"]
 BEHS = ["ok", "raises", "turnRaises", "overshoot"]
@@ -575,9 +580,33 @@ def _gzip(data: bytes) -> bytes:
 
 
 def _zstd(data: bytes) -> bytes:
+    """One-shot frame: the header declares the content size (what the reference clients send)."""
     import zstandard
 
     return zstandard.ZstdCompressor(level=3).compress(data)
+
+
+def _zstd_stream(data: bytes) -> bytes:
+    """Streaming frame: no content size in the header (what streaming compressors produce)."""
+    import zstandard
+
+    co = zstandard.ZstdCompressor(level=3).compressobj()
+    out = co.compress(data) + co.flush()
+    assert zstandard.get_frame_parameters(out).content_size in (-1, 0, 18446744073709551615), "frame declares a size"
+    return out
+
+
+def _pad_to(env: "Env", plain: bytes, n: int, body_cls: str, route: str) -> bytes | None:
+    """`plain` followed by zero bytes up to exactly `n` bytes (what follows the end-of-stream marker of a request is
+    never read); None when that is impossible or would change what reading a malformed body raises."""
+    if len(plain) > n:
+        return None
+    out = plain + b"\0" * (n - len(plain))
+    if body_cls.startswith("parseFail:"):
+        st, cls = classify_read(out, route)
+        if st != "fail" or cls.removeprefix("late:") != body_cls.split(":")[1] or classify_read(plain, route)[1] != cls:
+            return None
+    return out   # (what follows a *well-formed* request stream is never looked at)
 
 
 PAINT_OF_KIND = {"unary": "paint", "producer": "paint_rows", "exchanger": "paint_echo"}
@@ -850,14 +879,32 @@ def build_request(env: Env, pool: ParsePool, c: dict[str, str], rng: Any) -> dic
         notes["malformed"] = how
         predicted_exc = ("late:" + cls) if (isinstance(how, list) and how and how[0] == "late") else cls
 
-    # ---- content encoding + wire size
+    # ---- content encoding + wire size (boundary sizes included: cap-1, cap, cap+1 on the wire and after decoding)
     headers: dict[str, str] = {}
     cenc = c["cenc"]
+    if c["size"] == "atCap" and cenc in ("supported", "bomb") or (c["size"] == "atCap" and cenc.startswith("atCap:")):
+        return None  # a compressed body cannot be padded to an exact wire length
+    if cenc in ("none", "supported") and rng.random() < 0.35:
+        near = _pad_to(env, plain, MAX_REQ - rng.choice([1, 1, 2]),
+                       body_cls, route)
+        if near is not None:
+            plain = near
+            notes["decoded_len"] = len(plain)
     wire = plain
     if cenc == "supported":
-        codec = rng.choice(["gzip", "zstd"])
-        wire = _gzip(plain) if codec == "gzip" else _zstd(plain)
-        headers["Content-Encoding"] = rng.choice([codec, codec.upper(), f" {codec} "])
+        codec = rng.choice(["gzip", "zstd", "zstd-stream"])
+        wire = {"gzip": _gzip, "zstd": _zstd, "zstd-stream": _zstd_stream}[codec](plain)
+        name_ = codec.split("-")[0]
+        headers["Content-Encoding"] = rng.choice([name_, name_.upper(), f" {name_} "])
+        notes["codec"] = codec
+    elif cenc.startswith("atCap:"):
+        coding = cenc.split(":")[1]
+        exact = _pad_to(env, plain, MAX_REQ, body_cls, route)
+        if exact is None:
+            return None
+        wire = {"gzip": _gzip, "zstdSized": _zstd, "zstdStream": _zstd_stream}[coding](exact)
+        headers["Content-Encoding"] = "gzip" if coding == "gzip" else "zstd"
+        notes["decoded_len"] = len(exact)
     elif cenc == "unsupported":
         headers["Content-Encoding"] = rng.choice(UNSUPPORTED_ENC)
         wire = plain if rng.random() < 0.5 else _gzip(plain)
@@ -883,15 +930,32 @@ def build_request(env: Env, pool: ParsePool, c: dict[str, str], rng: Any) -> dic
         else:
             wire = bytes(rng.randrange(256) for _ in range(40))
     elif cenc == "bomb":
-        codec = rng.choice(["gzip", "zstd"])
-        headers["Content-Encoding"] = codec
-        big = plain + b"\0" * (MAX_REQ + rng.choice([1, 2, 100, 50000]))
-        wire = _gzip(big) if codec == "gzip" else _zstd(big)
+        codec = rng.choice(["gzip", "zstd", "zstd-stream"])
+        headers["Content-Encoding"] = codec.split("-")[0]
+        over = rng.choice([1, 1, 2, 100, 50000])
+        big = plain + b"\0" * max(MAX_REQ + over - len(plain), over)
+        wire = {"gzip": _gzip, "zstd": _zstd, "zstd-stream": _zstd_stream}[codec](big)
+        notes["decoded_len"] = len(big)
+        notes["codec"] = codec
     if c["size"] == "oversize":
-        pad = MAX_REQ + 1 - len(wire) + rng.choice([0, 0, 1, 1000])
-        wire = wire + bytes(rng.randrange(256) for _ in range(64)) * (max(pad, 1) // 64 + 1)
+        pad = max(MAX_REQ + rng.choice([1, 1, 2, 1000]) - len(wire), 1)
+        wire = wire + bytes(rng.randrange(256) for _ in range(pad))
+    elif c["size"] == "atCap":
+        if cenc == "none":
+            exact = _pad_to(env, plain, MAX_REQ, body_cls, route)
+            if exact is None:
+                return None
+            wire = exact
+        else:  # unsupported / corrupt: the body is never decoded
+            if len(wire) > MAX_REQ or (cenc == "corrupt" and notes.get("corrupt") == "trunc"):
+                return None   # (a truncated frame keeps its header; padding it would hand the decoder a new frame)
+            wire = wire + bytes(rng.randrange(1, 256) for _ in range(MAX_REQ - len(wire)))
+            if cenc == "corrupt" and codec == "gzip" and wire[:2] == b"\x1f\x8b":
+                return None
+        assert len(wire) == MAX_REQ
     if len(wire) > MAX_REQ and c["size"] != "oversize":
         return None  # cannot realise "within" for this instance
+    notes["wire_len"] = len(wire)
     if c["ctype"] == "correct":
         headers["Content-Type"] = CT
     elif c["ctype"] == "wrong":
@@ -1017,10 +1081,11 @@ def _classes_quick(rng: Any) -> list[dict[str, str]]:
         for kind in KINDS:
             for body in BODIES:
                 for ctype in CTYPES:
-                    for cenc in CENCS:
+                    # the three at-the-cap codings are one class here (drawn), all three in the passes below
+                    for cenc in CENCS[:5] + [rng.choice(CENCS[5:])]:
                         for token in TOKENS:
                             out.append({"route": route, "kind": kind, "body": body, "ctype": ctype, "cenc": cenc,
-                                        "size": "within" if rng.random() < 0.8 else "oversize",
+                                        "size": rng.choice(["within"] * 7 + ["oversize"] * 2 + ["atCap"]),
                                         "auth": "ok" if rng.random() < 0.8 else "rejected",
                                         "token": token, "beh": rng.choice(BEHS)})
     for route in ROUTES:
@@ -1029,7 +1094,7 @@ def _classes_quick(rng: Any) -> list[dict[str, str]]:
                 for auth in AUTHS:
                     for beh in BEHS:
                         for body in ("valid", "cancel"):
-                            for cenc in ("none", "supported"):
+                            for cenc in CENCS:
                                 out.append({"route": route, "kind": kind, "body": body, "ctype": "correct", "cenc": cenc,
                                             "size": size, "auth": auth, "token": "valid", "beh": beh})
     # everything the resources decide on requests that pass the middleware chain and the content-type check
@@ -1039,23 +1104,36 @@ def _classes_quick(rng: Any) -> list[dict[str, str]]:
                 for token in TOKENS:
                     for beh in BEHS:
                         out.append({"route": route, "kind": kind, "body": body, "ctype": "correct",
-                                    "cenc": rng.choice(["none", "none", "supported"]), "size": "within", "auth": "ok",
+                                    "cenc": rng.choice(["none", "none", "supported"] + CENCS[5:]),
+                                    "size": rng.choice(["within", "within", "within", "atCap"]), "auth": "ok",
                                     "token": token, "beh": beh})
     return out
 
 
-def _classes_full() -> Any:
+def _classes_full(rng: Any) -> Any:
+    """Thorough tier.  The full product (634 752 realisable classes) is factored the way the server — and the model, see
+    `good_passing` in Proofs/C15 — looks at a request: the middleware chain reads only (wire size, encoding, auth), the
+    resources read only the rest.  (a) every resource-level class behind every (size, encoding) pair the chain lets
+    through; (b) every (size, encoding, auth) class in front of 1 500 drawn resource-level classes."""
+    passing = [("within", "none"), ("atCap", "none"), ("within", "supported")] + [("within", c) for c in CENCS[5:]]
     for route in ROUTES:
         for kind in KINDS:
             for body in BODIES:
                 for ctype in CTYPES:
-                    for cenc in CENCS:
-                        for size in SIZES:
-                            for auth in AUTHS:
-                                for token in TOKENS:
-                                    for beh in BEHS:
-                                        yield {"route": route, "kind": kind, "body": body, "ctype": ctype, "cenc": cenc,
-                                               "size": size, "auth": auth, "token": token, "beh": beh}
+                    for token in TOKENS:
+                        for beh in BEHS:
+                            for size, cenc in passing:
+                                yield {"route": route, "kind": kind, "body": body, "ctype": ctype, "cenc": cenc,
+                                       "size": size, "auth": "ok", "token": token, "beh": beh}
+    for cenc in CENCS:
+        for size in SIZES:
+            if size == "atCap" and cenc not in ("none", "unsupported", "corrupt"):
+                continue  # a compressed body cannot be padded to an exact wire length
+            for auth in AUTHS:
+                for _ in range(1500):
+                    yield {"route": rng.choice(ROUTES), "kind": rng.choice(KINDS), "body": rng.choice(BODIES),
+                           "ctype": rng.choice(CTYPES), "cenc": cenc, "size": size, "auth": auth,
+                           "token": rng.choice(TOKENS), "beh": rng.choice(BEHS)}
 
 
 def _bases(env: Env) -> dict[str, tuple[bytes, str]]:
@@ -1128,13 +1206,17 @@ def run(ctx: Any) -> None:
     for e in unm:
         ctx.mismatch({"exception_class": e}, {"ParseExc": PARSE_EXC}, {"raised": e}, "pyarrow raised a class outside the model's closed list")
 
-    thorough = ctx.tier == "thorough" or ctx.deep
-    if thorough:
-        classes = list(_classes_full())
+    thorough = ctx.tier == "thorough"
+    if ctx.deep and not thorough:
+        # a proof / the correspondence is broken: search harder for a failing input, but stay within minutes
+        _run_classes(ctx, env, pool, _classes_quick(ctx.rng), 4, "q")
+        ctx.note("class_product", "raised-budget search: quick class set x 4 instances")
+    elif thorough:
+        classes = list(_classes_full(ctx.rng))
         _run_classes(ctx, env, pool, classes, 1, "full")
         ctx.exhaustive = True
         ctx.note("class_product", len(classes))
-        _run_classes(ctx, env, pool, _classes_quick(ctx.rng), 3, "q")
+        _run_classes(ctx, env, pool, _classes_quick(ctx.rng), 2, "q")
     else:
         classes = _classes_quick(ctx.rng)
         _run_classes(ctx, env, pool, classes, 1, "q")
@@ -1143,7 +1225,7 @@ def run(ctx: Any) -> None:
                                   "size/auth/behaviour drawn per class")
 
     # ---- byte-level fuzz stream: good headers, mutated bodies, all routes
-    n_fuzz = ctx.budget(4000, 120000)
+    n_fuzz = ctx.budget(4000, 80000)
     hdr = {"Content-Type": CT, "Authorization": "Bearer ok"}
     paths = {"unary:echo": "/echo", "init:gen": "/gen/init", "init:exch": "/exch/init", "exchange:exch": "/exch/exchange",
              "exchange:gen": "/gen/exchange"}
